@@ -7,7 +7,9 @@ from ref import asl as RA
 PROP = "C01"
 
 INPUTS = [{}, {"a": 1}, {"a": {"b": [1, 2]}, "b": "s", "items": [1, {"a": 1}]}, {"a": 0, "items": []}, [1, 2], 5, None, {"Error": "x"}]
-T_OUT = [["ok", {"r": 1}], ["ok", 7], ["ok", [1]], ["ok", {"Error": "data", "x": 1}], ["err", "E1", "boom"]]
+T_OUT = [["ok", {"r": 1}], ["ok", 7], ["ok", [1]], ["ok", {"Error": "data", "x": 1}], ["err", "E1", "boom"],
+         # by-attempt sequences (the worker counts attempts per payload): fail, fail with another error, then succeed
+         [["err", "E1", "b1"], ["err", "E2", "b2"], ["ok", {"ok": 3}]], [["err", "E2", "b2"], ["err", "E2", "b2"], ["ok", 4]]]
 
 def fa(f):
     return "arn:aws:rpcmessage:local::function:" + f
@@ -26,6 +28,8 @@ def menu():
     m["p_order"] = {"Type": "Pass", "InputPath": "$.a", "Parameters": {"w.$": "$.b"}, "ResultPath": "$.res", "OutputPath": "$.res"}
     m["p_ctx"] = {"Type": "Pass", "Parameters": {"n.$": "$$.State.Name", "in.$": "$$.Execution.Input"}}
     m["p_resultroot"] = {"Type": "Pass", "Result": [1, 2]}
+    m["p_emptyparams"] = {"Type": "Pass", "Parameters": {}, "ResultPath": "$.p"}
+    m["t_emptysel"] = {"Type": "Task", "Resource": fa("f"), "Parameters": {}, "ResultSelector": {}, "ResultPath": "$.r"}
     m["t_plain"] = {"Type": "Task", "Resource": fa("f")}
     m["t_params"] = {"Type": "Task", "Resource": fa("f"), "Parameters": {"q.$": "$.a"}}
     m["t_sel"] = {"Type": "Task", "Resource": fa("f"), "ResultSelector": {"v.$": "$"}, "ResultPath": "$.t", "OutputPath": "$.t"}
@@ -51,6 +55,11 @@ def menu():
     m["par_fail"] = {"Type": "Parallel", "Branches": [br({"Type": "Pass", "Result": 1}), {"StartAt": "BF1", "States": {"BF1": {"Type": "Fail", "Error": "E.br", "Cause": "c"}}}]}
     m["par_catch"] = {"Type": "Parallel", "Branches": [{"StartAt": "BF2", "States": {"BF2": {"Type": "Fail", "Error": "E.br", "Cause": "c"}}}],
                       "Catch": [{"ErrorEquals": ["E.br"], "Next": "@next", "ResultPath": "$.caught"}]}
+    m["par_retry_nested"] = {"Type": "Parallel", "Retry": [{"ErrorEquals": ["States.ALL"], "IntervalSeconds": 1, "MaxAttempts": 1}],
+                             "Branches": [br({"Type": "Task", "Resource": fa("f"), "Retry": [{"ErrorEquals": ["E2"], "IntervalSeconds": 1, "MaxAttempts": 1}]})]}
+    m["map_retry_nested"] = {"Type": "Map", "ItemsPath": "$.items", "Retry": [{"ErrorEquals": ["States.ALL"], "IntervalSeconds": 1, "MaxAttempts": 1}],
+                             "ItemProcessor": {"StartAt": "I99", "States": {"I99": {"Type": "Task", "Resource": fa("f"), "End": True,
+                                                                                 "Retry": [{"ErrorEquals": ["E2"], "IntervalSeconds": 1, "MaxAttempts": 1}]}}}}
     def it(st):
         brc[0] += 1
         return {"StartAt": "I%d" % brc[0], "States": {"I%d" % brc[0]: dict(st, End=True)}}
@@ -108,38 +117,37 @@ def cases(tier):
     return out
 
 def workers_for(o):
-    return {"f": {"*": [o]}} if o else {}
+    if not o:
+        return {}
+    return {"f": {"*": o if isinstance(o[0], list) else [o]}}
 
 def _batch(args):
     tier, lo, hi = args
     from harness.world import World, exec_arn
     cs = cases(tier)[lo:hi]
     res = []
-    # one World per outcome kind so the worker script is uniform
-    groups = {}
-    for idx, (names, ii, o) in enumerate(cs):
-        groups.setdefault(json.dumps(o), []).append(idx)
+    # every machine gets its own worker queue so that attempt counters never mix between executions
     got = {}
-    for ok, idxs in groups.items():
-        o = json.loads(ok)
-        sc = {"name": "c01-batch", "machines": {}, "starts": [], "record_sites": False, "workers": workers_for(o), "horizon": 1e9}
-        for idx in idxs:
-            names, ii, _ = cs[idx]
-            sc["machines"]["m%d" % idx] = {"definition": build(names)}
-            sc["starts"].append({"machine": "m%d" % idx, "name": "e", "input": INPUTS[ii], "after_quiet": True})
-        w = World(sc)
-        w.run(max_steps=1000000)
-        for n in w.notes:
-            det = n["body"]["detail"]
-            if det["status"] != "RUNNING":
-                got.setdefault(det["executionArn"], []).append(
-                    [det["status"], json.loads(det["output"]) if det.get("output") is not None else None, det.get("error"), det.get("cause")])
-        recs = w.executions()
-        for idx in idxs:
-            arn = exec_arn("m%d" % idx, "e")
-            r = recs.get(arn)
-            got[arn + "#rec"] = None if r is None else [r.get("status"), r.get("output"), r.get("error")]
-        w.close()
+    sc = {"name": "c01-batch", "machines": {}, "starts": [], "record_sites": False, "workers": {}, "horizon": 1e9}
+    for idx, (names, ii, o) in enumerate(cs):
+        d = json.loads(json.dumps(build(names)).replace(':function:f"', ':function:f%d"' % idx))
+        sc["machines"]["m%d" % idx] = {"definition": d}
+        if o:
+            sc["workers"]["f%d" % idx] = workers_for(o)["f"]
+        sc["starts"].append({"machine": "m%d" % idx, "name": "e", "input": INPUTS[ii], "after_quiet": True})
+    w = World(sc)
+    w.run(max_steps=1000000)
+    for n in w.notes:
+        det = n["body"]["detail"]
+        if det["status"] != "RUNNING":
+            got.setdefault(det["executionArn"], []).append(
+                [det["status"], json.loads(det["output"]) if det.get("output") is not None else None, det.get("error"), det.get("cause")])
+    recs = w.executions()
+    for idx in range(len(cs)):
+        arn = exec_arn("m%d" % idx, "e")
+        r = recs.get(arn)
+        got[arn + "#rec"] = None if r is None else [r.get("status"), r.get("output"), r.get("error")]
+    w.close()
     for idx in range(len(cs)):
         arn = exec_arn("m%d" % idx, "e")
         res.append((got.get(arn), got.get(arn + "#rec")))
